@@ -485,6 +485,9 @@ def c01(v):
     v.sample({"generated_behaviours": [list(p[:2]) + [list(p[2])] for p in plan[:3]]})
     for op, args, r, exp in bad:
         v.mismatch("TripleGen:" + op, {"check": op, "args": args}, {"observed": r, "expected": list(exp)})
+    # the same verdicts through the TEXT constructors of the three date-bearing types: last day of every month and that day + 1
+    gens = spellgen(v, "monthends", month_end_cases(), chunks=6)
+    replay_spellings(v, "monthends", gens, lambda var, exp, loss, ty, pic: var == 1 or 1 <= var - (N_STYLES + MAX_CUT) <= 6)     # canonical text; month 0/13/12, day 0/32/last+1
     v.cov["exhaustive"] = v.tier == "thorough"
 
 
@@ -824,6 +827,18 @@ def c14(v):
             for sx, sk in ((1, 1), (-1, 1), (1, -1), (-1, -1)):
                 plan.append(("YM.mul_f64", [sx * x, pools.fspec(sk * k_)]))
                 plan.append(("YM.div_f64", [sx * x, pools.fspec(sk / k_)]))
+    # quotients / products that lie just below (or above) a whole number of microseconds with a LARGE divisor:
+    # x = n*k -+ 1 us divided by k (and multiplied by 1/k): truncation toward zero, no snapping to the nearest integer
+    for k_ in (10.0**10, 2.0**34, 2.0**36, 86400e6, 2e10, 3.0 * 2**33, 1e12):
+        for n_ in (1, 2, 3, 5, 7, 1000):
+            for d_ in (-1, 1):
+                x = int(n_ * k_) + d_
+                if x < 86400 * 10**6 * 100000000:
+                    for sx, sk in ((1, 1), (-1, 1), (1, -1)):
+                        plan.append(("DT.div_f64", [pools.us3(sx * x), pools.fspec(sk * k_)]))
+                        plan.append(("DT.mul_f64", [pools.us3(sx * x), pools.fspec(sk / k_)]))
+                if x < 86400 * 10**6:
+                    plan.append(("T.div_f64", [[x // 10**6, x % 10**6], pools.fspec(k_)]))
     eventtrace(v, "scale", plan, {"result", "range", "panic"}, shard=1200)
 
 
@@ -1101,6 +1116,15 @@ def c19(v):
     for p in pics:
         plan.append(("F.try_new", [p]))
         plan.append(("TS.format", [PROBE_TS, p]))
+    # characters that are no token at all - other white space (tab, LF, CR, FF, VT), NUL, quotes, brackets, letters of
+    # no code - at every position of ordinary pictures, in particular next to a blank
+    for base in ("DD MM", "YYYY-MM-DD HH24:MI:SS", " DD  MON ", "HH12:MI AM"):
+        for ch in ("\t", "\n", "\r", "\x0c", "\x0b", "\x00", "'", '"', "(", "_", "Z", "x", "8"):
+            for pos in range(len(base) + 1):
+                p = list(base[:pos] + ch + base[pos:])
+                plan.append(("F.try_new", [p]))
+                if pos % 3 == 0:
+                    plan.append(("TS.format", [PROBE_TS, p]))
     eventtrace(v, "randpics", plan, {"result", "panic"}, shard=1500)
 
 
@@ -1192,6 +1216,15 @@ def c04(v):
             steps.append([ty, rnd.choice(pool)])
         steps.append(list(steps[0]))          # the first value again at the end
         plan.append(("F.session", [pic, steps]))
+    # the longest renderings: 36 x the widest token of each type, and long blank runs, through both entry points
+    # (Formatter::format into a String and T::format -> Display; the harness reports a disagreement as a panic)
+    for ty, pool in tys:
+        for tok in ("FF9", "MONTH", "YYYY", "HH24", "DDD", "A.M."):
+            plan.append((ty + ".format", [pool[0], list(tok * 36)]))
+            plan.append((ty + ".format", [pool[1], list((tok + " ") * 18)]))
+        for nb in (255, 300, 325, 400, 1000):
+            plan.append((ty + ".format", [pool[0], list(" " * nb)]))
+            plan.append((ty + ".format", [pool[2], list("DD" + " " * nb + "HH24")]))
     # single-token pictures x every type: applicability table
     for tok in ALL_TOKENS:
         for ty, pool in tys:
@@ -1257,7 +1290,22 @@ def spell_cases(v):
     add("OD", OD_PICS, [[x[0], x[1], 0] for x in tss[:12]])
     add("YM", YM_PICS, yms)
     add("DT", DT_PICS, dts)
+    cases += month_end_cases()
     return cases
+
+
+def month_end_cases():
+    """The last day of every month of a common and of a leap year, for every date-bearing type under its plain numeric
+    picture: SpellGen's perturbation 'last day of the month + 1' then offers 31 April .. 31 November, 30 / 29 February
+    through the text constructor of each type (the triple must be refused whichever type parses it)."""
+    out = []
+    for y in (2023, 2024):
+        for m in range(1, 13):
+            n = vlib.dayno(y + (m // 12), (m % 12) + 1, 1) - 1
+            out.append(("D", list("YYYY-MM-DD"), n, CLOCKS[0]))
+            out.append(("TS", list("YYYY-MM-DD HH24:MI:SS"), [n, 47289, 0], CLOCKS[0]))
+            out.append(("OD", list("YYYY-MM-DD HH24:MI:SS"), [n, 47289, 0], CLOCKS[0]))
+    return out
 
 
 def tla_val(x):
